@@ -39,8 +39,10 @@ def check_fixed_point(ctx, backend, p, touch=False):
     try:
         s = str(u)
         snap = snapshot(u)
-    except ValueError:
-        ctx.case(False, label="skipped:unprintable(C19)")
+    except ValueError as ex:
+        # the generators only supply valid schemes, hosts and ports (0-65535): a URL made from them has a string form
+        ctx.case(True, label="unprintable", key=(backend, json.dumps(jsonable(p), sort_keys=True)))
+        ctx.check(False, "a URL produced from valid input has no string form (str() raises)", observed={"parts": list(u._val), "exc": ex}, expected="a canonical string", entry="str")
         return
     if p["ctor"][0] == "str":
         R0 = ref.split(p["ctor"][1])
